@@ -7902,6 +7902,11 @@ func ruleCacheGen(prop string) ruleFn {
 						if c == nil || !invalidates(c.StaticCallee()) {
 							return
 						}
+						// under the id the fact is stored under (not the one the caller gave: a property's is made
+						// from the fact)
+						if len(c.Args) >= 2 && resolveSpill(c.Args[1]) != resolveSpill(mu.Key) {
+							return
+						}
 						if reachable(fn, in, x) && between(fn, in, x, isLockOp) == nil {
 							same = true
 						}
